@@ -273,11 +273,13 @@ Proof.
     destruct (nodes_eq fo (iforget x) (iforget v)); apply KEEP. }
   destruct (is_root (ip_path o)).
   { destruct (op_eqb (ip_op o) ORemove); [cbn [snd]; destruct t; split; reflexivity|].
-    destruct (op_eqb (ip_op o) OReplace || op_eqb (ip_op o) OAdd || op_eqb (ip_op o) OAddCreate); [|apply KEEP].
-    destruct (ip_val o) as [v|] eqn:EV; [|apply KEEP]. cbn [snd].
-    pose proof (V v EV) as PV. clear EV. destruct v as [vi vp vkl vkey vty vvi vvs vch]. cbn [i_parents_ok i_id]. split; [|reflexivity].
-    cbn [i_parents_ok] in PV. rewrite forallb_forall in *. intros x I. apply in_map_iff in I. destruct I as [y [E I]]. subst x.
-    specialize (PV y I). apply andb_true_iff in PV. destruct PV as [_ PV]. rewrite par_set_par, pok_set_par, Z.eqb_refl, PV. reflexivity. }
+    destruct (op_eqb (ip_op o) OReplace || op_eqb (ip_op o) OAdd || op_eqb (ip_op o) OAddCreate).
+    { destruct (ip_val o) as [v|] eqn:EV; [|apply KEEP]. cbn [snd].
+      split; [apply pok_copy_data; exact (V v EV) | apply id_copy_data]. }
+    destruct (op_eqb (ip_op o) OMove || op_eqb (ip_op o) OCopy); [|apply KEEP].
+    destruct (ip_from o) as [[|s r]|]; try apply KEEP.
+    destruct (i_find t (s :: r)) as [v|] eqn:FV; [|apply KEEP]. cbn [snd].
+    split; [apply pok_copy_data; exact (find_pok _ _ _ H FV) | apply id_copy_data]. }
   assert (T1 : forall t1, (if op_eqb (ip_op o) ORemove || op_eqb (ip_op o) OReplace
                            then match i_detach t (ip_path o) with None => None | Some (t', _) => Some t' end else Some t) = Some t1 ->
                           keeps t t1).
@@ -307,6 +309,7 @@ Proof.
   2:{ destruct (ip_val o) as [v|] eqn:EV; [|apply KEEP1].
       fin (put_or_create_pok fo (ip_op o) next t1 (ip_path o) v H1 (V v EV)). }
   destruct (ip_from o) as [f|]; [|apply KEEP1].
+  destruct (seg_nested f (ip_path o)); [apply KEEP1|].
   destruct (i_find t1 f) as [v|] eqn:FV; [|apply KEEP1].
   pose proof (find_pok _ _ _ H1 FV) as PV.
   destruct (i_locate t1 f) as [pf|]; [|apply KEEP1].
